@@ -18,7 +18,7 @@ RULE = ("Domain: every exported optimizer except those whose update rule reads A
         "cycles and >= 2 distinct best costs over the run; distinct = SHA-256 of the spec.")
 ASSUMPTIONS = ["-1*y == -y exactly in IEEE arithmetic, so negated objectives give exactly negated internal costs",
                "a pair in which either run raises is C06's business (both must then raise alike)"]
-BUDGET = {"quick": 8, "thorough": 150}
+BUDGET = {"quick": 30, "thorough": 200}
 
 
 def strategy(optimizer, tier):
